@@ -482,7 +482,20 @@ def rule_semantics_of_helpers(repo, rep):
         cj = [norm(x) for x in conjuncts(ret.value)]
         from ..astutil import same_texts
 
-        ok = same_texts(cj, ["self.scale_f32 == other.scale_f32", "self.zero_point == other.zero_point"])
+        def exact_pair(e):
+            """field name if `e` is an exact equality test of self.<f> and other.<f> (scalar ==, or an array comparison reduced with all)"""
+            while isinstance(e, ast.Call) and (call_name(e) in ("bool", "np.all", "numpy.all", "all") or (isinstance(e.func, ast.Attribute) and e.func.attr == "all" and not e.args)):
+                e = e.args[0] if e.args else e.func.value
+            pair = None
+            if isinstance(e, ast.Compare) and len(e.ops) == 1 and isinstance(e.ops[0], ast.Eq):
+                pair = (e.left, e.comparators[0])
+            elif isinstance(e, ast.Call) and call_name(e) in ("np.array_equal", "numpy.array_equal") and len(e.args) == 2:
+                pair = tuple(e.args)
+            if pair and all(isinstance(x_, ast.Attribute) and isinstance(x_.value, ast.Name) for x_ in pair) and {pair[0].value.id, pair[1].value.id} == {"self", "other"} and pair[0].attr == pair[1].attr:
+                return pair[0].attr
+            return None
+
+        ok = sorted(str(exact_pair(x)) for x in conjuncts(ret.value)) == ["scale_f32", "zero_point"]
         rep.check(ok, "C16-e", f"ethosu/vela/tensor.py:{fnm}", "scaling equality is exact equality of scale and zero point ('quantization parameters must match')",
                   f"returns `{norm(ret.value)}`: operators whose parameters differ slightly are accepted by the 'must match' constraints although the documented rule rejects them")
     # (3) activation fusing
